@@ -30,7 +30,8 @@ ANCHORS = ["coxeter.families.plane_shape_families:TruncationPlaneShapeFamily.mak
            "coxeter.families.common:UniformPrismFamily.make_vertices", "coxeter.families.common:UniformAntiprismFamily.make_vertices",
            "coxeter.families.common:UniformPyramidFamily.make_vertices", "coxeter.families.common:UniformDipyramidFamily.make_vertices"]
 REQUIRED_MONITORS = ["truncation:inside-halfspaces", "truncation:facets-on-stated-planes", "truncation:volume", "truncation:corner-solid",
-                     "out-of-domain-rejected", "ngon", "prism", "antiprism", "pyramid", "dipyramid"]
+                     "out-of-domain-rejected", "ngon", "prism", "antiprism", "pyramid", "dipyramid",
+                     "regenerated-after-caller-changed-earlier-result"]
 S = (1 + math.sqrt(5)) / 2
 DOMAIN = {"Family323Plus": ((1.0, 3.0), (1.0, 3.0), 1.0), "Family423": ((1.0, 2.0), (2.0, 3.0), 2.0),
           "Family523": ((1.0, (1 / S) * math.sqrt(5)), (S * S, 3.0), 2.0)}
@@ -93,6 +94,38 @@ def enumerate_vertices(planes, dists):
         if all(np.linalg.norm(x - y) > 1e-7 for y in keep):
             keep.append(x)
     return np.array(keep)
+
+
+def regenerated(rec, fam, get, info):
+    """A family is a generator, not a store: the caller may resize or move the shape it received, and asking
+    again with the same parameters must give the documented shape again (an object of its own)."""
+    try:
+        s1 = get()
+        with contracts.quiet():
+            V1 = np.array(s1.vertices, float, copy=True)
+            if hasattr(s1, "volume"):
+                s1.volume = 2.5 * float(s1.volume)
+            else:
+                s1.area = 2.5 * float(s1.area)
+            try:
+                s1.centroid = np.asarray(s1.centroid, float) + np.array([1.0, -2.0, 0.5]) * (0 if not hasattr(s1, "volume") else 1) \
+                    + np.array([1.0, -2.0, 0.0])
+            except Exception:
+                pass
+        s2 = get()
+        with contracts.quiet():
+            V2 = np.asarray(s2.vertices, float)
+            moved = float(np.abs(np.asarray(s1.vertices, float) - V1).max())
+    except Exception as e:
+        rec.note(f"{fam}: regeneration history not completed ({type(e).__name__})")
+        return
+    if moved == 0:
+        rec.note(f"{fam}: the mutation of the first result had no effect (history not judged)")
+        return
+    same = V2.shape == V1.shape and bool(np.all(np.abs(V2 - V1) <= 1e-12 * max(1.0, float(np.abs(V1).max()))))
+    rec.check("regenerated-after-caller-changed-earlier-result", same and s2 is not s1 and not np.shares_memory(s1.vertices, s2.vertices),
+              f"{fam}.get_shape/second-call-returns-the-callers-modified-shape",
+              lambda: dict(info, first_call=V1[:3], second_call=V2[:3], same_object=s2 is s1))
 
 
 def min_separation(P):
@@ -175,6 +208,11 @@ def run_case(i, rng, rec, tier, state):
             a, c = float(rng.uniform(a0, a1)), float(rng.uniform(c0, c1))
             corner = None
         check_truncation(rec, fam, F, float(a), float(c), b, corner)
+        if fam != "Family523" or i % 4 == 0:
+            form = i % 3
+            regenerated(rec, fam, (lambda: F.get_shape(float(a), float(c))) if form == 0 else
+                        (lambda: F.get_shape(np.float64(a), np.float64(c))) if form == 1 else (lambda: F.get_shape(a=float(a), c=float(c))),
+                        {"family": fam, "a": a, "c": c, "call_form": ["positional float", "numpy float64", "keywords"][form]})
         if corner is None:
             rec.nontriv(fam, a, c)
         if i % 97 == 0:
@@ -226,6 +264,7 @@ def run_case(i, rng, rec, tier, state):
             vef = (len(V), len(h.edges), len(h.facets))
             want = (4, 6, 4) if t == 0 else ((6, 12, 8) if t == 1 else (12, 18, 8))
             rec.check("truncation:corner-solid", vef == want, f"{fam}.get_shape/not-a-truncated-tetrahedron", lambda: dict(info, vef=vef, want=want))
+        regenerated(rec, fam, lambda: F.get_shape(t), info)
         rec.nontriv(fam, t)
         return
     if kind == "ood-ttet":
@@ -258,6 +297,7 @@ def run_case(i, rng, rec, tier, state):
         return
     with contracts.quiet():
         V = np.asarray(shape.vertices, float)
+    regenerated(rec, fam, lambda: F.get_shape(n), info)
     if fam == "RegularNGonFamily":
         E = geom.poly3d_exact(V, np.asarray(shape.normal, float))
         r = np.linalg.norm(V[:, :2], axis=1)
